@@ -80,14 +80,21 @@ def run(ctx):
     mmap = ("ref", fld(me, tf["memory_map"]["i"]))
     L = ("len", mmap)
     agg = N(rt) if rt is not None else None
-    if agg is not None and agg[0] == "call" and agg[2] == (arg(1),):
+    if agg is not None and agg[0] == "call" and isinstance(agg[1], str) and 1 <= len(agg[2]) <= 3:
         # the private constructor is a unit of its own whose result is not a closed term (it calls into std): read its
-        # return value and the facts on its normal return directly; its only argument is memory_areas' own `self`
+        # return value and the facts on its normal return directly, with its parameters replaced by what memory_areas passes
+        # (its own `self`, or the map and the descriptor size taken from it)
         ci = F.insts.get(agg[1])
-        if ci is not None and ci.get("impl_self_name") == "EFIMemoryAreaIter" and not ci.get("impl_trait") and not ci.get("vis_pub"):
+        if ci is not None and ci.get("impl_self_name") == "EFIMemoryAreaIter" and not ci.get("impl_trait") and not ci.get("vis_pub") and \
+                ci["body"]["argc"] == len(agg[2]):
             A2 = an.of(F, ci)
             rt2, facts2 = A2.ret()
             if rt2 is not None:
+                from .. import terms as T_
+                mp = {i_ + 1: a_ for i_, a_ in enumerate(agg[2])}
+                ident = agg[2] == (arg(1),)
+                rt2 = rt2 if ident else T_.subst(N(rt2), mp)
+                facts2 = facts2 if ident else [T_.subst(N(f), mp) for f in facts2]
                 rt, agg = rt2, N(rt2)
                 facts = list(facts) + [f for f in facts2 if f not in facts]
     g_shape = agg is not None and agg[0] == "aggr" and agg[1][0] == "adt" and agg[1][1] == ITER
